@@ -14,7 +14,10 @@
     (`rDefaultDepends` + `rPreset(s)` + `rDefault` as fall-back),
   * the toggles that enable the sub-trees it lives in (`rEnabledBy` on `rRecurp` —
     pointer sub-tree, a message into a disabled one matches nothing — or on `rRecur` —
-    embedded sub-tree, skipped by the walk when disabled),
+    embedded sub-tree, skipped by the walk when disabled; the toggle is a port of the parent
+    table, or a port of the sub-tree itself: `rRecur(sub, rEnabledBy(sub/t))`, or
+    `rSelf(T, rEnabledBy(t))` in the sub-tree's own table — then it guards every parameter of
+    the sub-tree except itself),
   * its transitive ancestors in the dependency order (ports whose change re-applies this
     parameter's default: preset port, `rDepends` ports, enabling toggles, and theirs).
 
@@ -189,7 +192,9 @@ structure App where
   /-- the port lookup of `scan_deps` followed by `meta()[…]` for the three dependency keys; the
       argument is the path exactly as `scan_deps` passes it: `<parent>/` for a parent level
       (looked up with `Ports::apropos`), the path of a line or of a dependency otherwise
-      (`port_of_path`, fixes/C13-scan-deps-exact-port) -/
+      (`port_of_path`, fixes/C13-scan-deps-exact-port); `<dir>self:` stands for the `self:` port of the
+      table a level stands in (`(*table)["self:"]` with `table` = the root table for `dir = "/"`, else
+      `apropos(dir)->ports`; fixes/C13-scan-deps-self-port) -/
   apropos : Path → Option DepMeta
 
 namespace App
